@@ -24,7 +24,9 @@ RULE = ("designs from a seeded generator: module trees of depth <= 3 (some modul
         "at a low rate, '$'-suffixed names that collide with generated ones (the retry loop of _add_name) included), widths 0-8, every signal owned by one "
         "(module, domain) and used in other modules (routed through intermediate modules), partial (sliced) targets, all operators, "
         "If/Switch, Print/Assert, several clock domains (negedge, async reset, reset-less, local), foreign instances with "
-        "i/o/io ports, parameters (int, negative, >= 2^31, str with escapes, float, Const) and attributes, I/O buffers on IOPorts, "
+        "i/o/io ports, parameters and attributes (plain ints of any size and sign incl. every +-2^k(+-1) boundary around 31/32/33/40/64 "
+        "bits, bool, int-valued Python/amaranth enum members, Const of any shape, str with escapes, float), each compared with the "
+        "text both as the constant _const must write (Rtlil.emit_xval) and numerically (decoded, in Coq and in Python), I/O buffers on IOPorts, "
         "lib.memory.Memory with sync/comb read ports and write ports; plus a fixed list of hand-written designs. Every emitted "
         "document is validated by wf_doc. Negative corpus: hand-corrupted texts and single-point corruptions of emitted documents "
         "(dangling wire, width mismatch incl. a process assignment widened in the emitted text, double driver, undriven wire, driven input, missing/extra port, duplicate name, sparse port "
@@ -155,6 +157,10 @@ def build(D):
             return Const(v[1], signed(v[2]) if v[3] else unsigned(v[2]))
         if v[0] == "float":
             return float(v[1])
+        if v[0] == "bool":
+            return bool(v[1])
+        if v[0] == "enum":
+            return _enum_member(v[1], v[2])
         return v[1]          # int / str
 
     for mi, md in enumerate(D["mods"]):
@@ -231,6 +237,25 @@ def build(D):
         else:
             ports.append((pname, obj, dirs[d]))
     return B.mods[0], ports, B
+
+
+def _enum_member(kind, n):
+    """an int-valued enumeration member with value n: Python IntEnum / IntFlag, amaranth.lib.enum.IntEnum / IntFlag"""
+    import enum as pyenum
+    from amaranth.lib import enum as amenum
+    from amaranth.hdl import signed, unsigned
+    if kind == "py":
+        return pyenum.IntEnum("E", {"A": n, "B": n + 1}).A
+    if kind == "pyflag":
+        return pyenum.IntFlag("F", {"A": n}).A
+    w = max(1, n.bit_length() if n >= 0 else (~n).bit_length() + 1)
+    if kind == "am":
+        class E(amenum.IntEnum, shape=(signed(w + 1))):
+            A = n
+        return E.A
+    class G(amenum.IntFlag, shape=unsigned(w)):
+        A = n
+    return G.A
 
 
 def convert(D):
@@ -384,31 +409,71 @@ def expectations(D, B, doc):
     return out
 
 
-def _const_json(v):
-    """what the emitter is expected to write for a parameter/attribute value, as a parsed const + flag"""
+def _xval(v):
+    """the Python value of a parameter / attribute as the design gave it (independent of the emitter):
+    ["int", n] | ["const", v, w, signed] | ["str", s] | ["float", repr]"""
+    if v[0] in ("int", "enum"):
+        return ["int", int(v[-1])]
+    if v[0] == "bool":
+        return ["int", int(bool(v[1]))]
     if v[0] == "const":
-        val, w, sg = v[1], v[2], v[3]
-        bits = format(val & ((1 << w) - 1), f"0{w}b") if w else ""
-        return ("signed" if sg else ""), ["bits", bits]
+        return ["const", v[1], v[2], bool(v[3])]
     if v[0] == "float":
-        return "real", ["str", repr(float(v[1]))]
-    if v[0] == "str":
-        return "", ["str", v[1]]
-    n = v[1]
-    if 0 <= n < 2 ** 31 - 1:
-        return "", ["int", n]
-    w = max(32, n.bit_length() if n >= 0 else (~n).bit_length() + 1)
-    return ("signed" if n < 0 else ""), ["bits", format(n & ((1 << w) - 1), f"0{w}b")]
+        return ["float", repr(float(v[1]))]
+    return ["str", v[1]]
 
 
 def _param_json(name, v):
-    flag, c = _const_json(v)
-    return ["\\" + name, flag, c]
+    return ["\\" + name, _xval(v)]
 
 
 def _attr_json(name, v):
-    _flag, c = _const_json(v)
-    return ["\\" + name, c]
+    return ["\\" + name, _xval(v)]
+
+
+def xval_number(x):
+    """the integer a given value means (Const: its normalised value), None for str / float"""
+    if x[0] == "int":
+        return x[1]
+    if x[0] == "const":
+        v, w, sg = x[1], x[2], x[3]
+        u = v & ((1 << w) - 1)
+        return u - (1 << w) if sg and w and (u >> (w - 1)) else u
+    return None
+
+
+def numeric_disagreements(doc, ex):
+    """python-side numeric comparison (second path next to the one inside Coq): every instance parameter / attribute
+    constant of the text is decoded (two's complement of the written width when marked signed; attributes have no
+    marker and are read with the sign of the given value) and compared with the value given in Python"""
+    bad = []
+    mods = {m["name"]: m for m in doc["modules"]}
+    for f in ex:
+        m = mods.get(f["module"])
+        cell = next((c for c in (m["cells"] if m else []) if c["name"] == f["cell"]), None)
+        if cell is None:
+            bad.append((f["cell"], "missing"))
+            continue
+        got_p = {n: (fl, c) for n, fl, c in cell["parameters"]}
+        got_a = {n: c for n, c in cell["attributes"]}
+        for n, x in f["params"]:
+            want = xval_number(x)
+            if want is None:
+                want_c = ["str", x[1]]
+                if n not in got_p or got_p[n][1] != want_c or (got_p[n][0] == "real") != (x[0] == "float"):
+                    bad.append((n, x, got_p.get(n)))
+                continue
+            if n not in got_p or rtlil_parse.const_value(got_p[n][1], got_p[n][0] == "signed") != want:
+                bad.append((n, x, got_p.get(n)))
+        for n, x in f["attrs"]:
+            want = xval_number(x)
+            if want is None:
+                if got_a.get(n) != ["str", x[1]]:
+                    bad.append((n, x, got_a.get(n)))
+                continue
+            if n not in got_a or rtlil_parse.const_value(got_a[n], want < 0) != want:
+                bad.append((n, x, got_a.get(n)))
+    return bad
 
 
 # =================================================================== AST -> Gallina
@@ -525,13 +590,27 @@ def t_pybits(bits):
     return "[" + ";".join(out) + "]"
 
 
+def t_xval(x):
+    if x[0] == "int":
+        return f"XInt {z(x[1])}"
+    if x[0] == "const":
+        return f"XConst {z(x[1])} {z(x[2])} {blit(x[3])}"
+    if x[0] == "float":
+        return f"XReal {qs(x[1])}"
+    return f"XStr {qs(x[1])}"
+
+
+def t_xvals(xs):
+    return "[" + ";".join(f"({qs(n)},{t_xval(x)})" for n, x in xs) + "]"
+
+
 def t_ex(ex):
     out = []
     for f in ex:
         ports = ";".join(
             f"FP {qs(p['name'])} {DIRS[p['dir']]} {z(p['width'])} "
             + ("None" if p["bits"] is None else f"(Some {t_pybits(p['bits'])})") for p in f["ports"])
-        out.append(f"FS {qs(f['module'])} {qs(f['cell'])} {qs(f['type'])} {t_params(f['params'])} {t_attrs(f['attrs'])} [{ports}]")
+        out.append(f"FS {qs(f['module'])} {qs(f['cell'])} {qs(f['type'])} {t_xvals(f['params'])} {t_xvals(f['attrs'])} [{ports}]")
     return "[" + ";\n ".join(out) + "]"
 
 
@@ -544,13 +623,15 @@ def run_impl(case):
     k = case["kind"]
     if k == "design":
         try:
-            text, _B = convert(case["d"])
+            text, B = convert(case["d"])
         except Exception as e:
             return [-1, exc_code(e)]
         try:
-            rtlil_parse.parse(text)
+            doc = rtlil_parse.parse(text)
         except rtlil_parse.RtlilSyntaxError:
             return [-2]
+        if B.insts and numeric_disagreements(doc, expectations(case["d"], B, doc)):
+            return [-3]      # a parameter / attribute constant of the text does not denote the given value
         return [1]
     if k == "neg":
         return [0]
@@ -595,7 +676,9 @@ def analyse(D):
             except rtlil_parse.RtlilSyntaxError as e:
                 r = ("noparse", text, None, None, ("RtlilSyntaxError", str(e)))
             else:
-                r = ("ok", text, doc, expectations(D, B, doc), None)
+                ex = expectations(D, B, doc)
+                bad = numeric_disagreements(doc, ex)
+                r = ("ok", text, doc, ex, (("numeric", repr(bad[:3])) if bad else None))
         _CACHE[key] = r
     return r
 
@@ -884,9 +967,55 @@ def _ex_width(D, e, sigs):
     raise ValueError(e)
 
 
-PVALS = [["int", 0], ["int", 5], ["int", -3], ["int", 2 ** 31 - 1], ["int", 2 ** 31 - 2], ["int", 2 ** 40 + 1], ["int", -2 ** 35],
-         ["str", "hello"], ["str", 'q"uo\\te\n\ttab'], ["str", ""], ["float", 1.5], ["float", -0.25],
-         ["const", 5, 4, False], ["const", -2, 3, True], ["const", 0, 0, False], ["int", 1]]
+STRS = ["hello", 'q"uo\\te\n\ttab', "", "\\", "a\rb", "caf\u00e9", "{}", " lead", "\\mem"]
+
+
+def boundary_ints():
+    """plain ints around every place where _const changes form or width"""
+    out = [0, 1, -1, 2, -2, 5, -3, 2 ** 31 - 3, 2 ** 31 - 2, 2 ** 31 - 1, 2 ** 31, 2 ** 31 + 1, 2 ** 32 - 1, 2 ** 32, 2 ** 32 + 1,
+           -2 ** 31 + 1, -2 ** 31, -2 ** 31 - 1, -2147483649, -2 ** 32 + 1, -2 ** 32, -2 ** 32 - 1, -2 ** 40 + 5, 2 ** 40 + 1, -2 ** 35]
+    for k in (30, 33, 34, 39, 40, 63, 64, 65, 100):
+        out += [2 ** k - 1, 2 ** k, 2 ** k + 1, -2 ** k + 1, -2 ** k, -2 ** k - 1]
+    return out
+
+
+def _pint(rng):
+    r = rng.random()
+    if r < 0.35:
+        return rng.choice(boundary_ints())
+    if r < 0.5:
+        return rng.randrange(-40, 41)
+    k = rng.choice([31, 32, 33, 40, 48, 63, 64, 70])
+    n = rng.randrange(2 ** (k - 1), 2 ** k + 2 ** (k - 2))
+    if rng.random() < 0.3:
+        n = 2 ** k + rng.choice([-2, -1, 0, 1, 2, 5])
+    return -n if rng.random() < 0.6 else n
+
+
+def _pval(rng, attr=False):
+    """a parameter / attribute value: plain ints of any size and sign, bool, int-valued enum members, Const of any shape,
+    strings with characters needing escapes, floats (parameters only: _const has no float form for attributes)"""
+    r = rng.random()
+    if r < 0.5:
+        return ["int", _pint(rng)]
+    if r < 0.62:
+        return ["str", rng.choice(STRS)]
+    if r < 0.8:
+        w = rng.choice([0, 1, 2, 3, 4, 8, 16, 31, 32, 33, 40, 64])
+        sg = w >= 1 and rng.random() < 0.5
+        v = rng.randrange(-(1 << w), 1 << w) if w else 0
+        if rng.random() < 0.3 and w:
+            v = rng.choice([-(1 << (w - 1)), (1 << (w - 1)) - 1, (1 << w) - 1, -1, 0])
+        return ["const", v, w, sg]
+    if r < 0.9:
+        kind = rng.choice(["py", "py", "am", "pyflag", "amflag"])
+        n = _pint(rng) if kind in ("py", "am") else abs(_pint(rng))
+        return ["enum", kind, n]
+    if r < 0.94:
+        return ["bool", rng.random() < 0.5]
+    if attr:
+        return ["int", _pint(rng)]
+    return ["float", rng.choice([1.5, -0.25, 0.0, 1e300, 3.141592653589793, -2.0 ** 70, 1e-7])]
 
 
 def gen_design(rng, dollar=False):
@@ -983,10 +1112,10 @@ def gen_design(rng, dollar=False):
         lowest = min(outs) if outs else ns
         av = [j for j in range(ns) if j < lowest or j in sync_ids or j in in_ids]
         args = []
-        for k in range(rng.randrange(0, 4)):
-            args.append(["p", rng.choice(["X", "Y", "WIDTH", "INIT"]) + str(k), rng.choice(PVALS)])
+        for k in range(rng.randrange(0, 6)):
+            args.append(["p", rng.choice(["X", "Y", "WIDTH", "INIT"]) + str(k), _pval(rng)])
         for k in range(rng.randrange(0, 3)):
-            args.append(["a", rng.choice(["keep", "LOC", "src"]) + str(k), rng.choice(PVALS[:10] + PVALS[12:])])
+            args.append(["a", rng.choice(["keep", "LOC", "src"]) + str(k), _pval(rng, attr=True)])
         for k in range(rng.randrange(0, 4)):
             r = rng.random()
             if r < 0.6 and av:
@@ -1169,6 +1298,18 @@ def fixed_designs():
                              ["i", "a", ["s", 0]], ["i", "k", ["c", 5, 4, False]], ["i", "m", ["cat", [["sl", ["s", 0], 1, 3], ["c", 1, 1, False]]]],
                              ["o", "q", ["cat", [["s", 1], ["s", 2]]]], ["io", "p0", ["iosl", 0, 0, 1]], ["io", "p12", ["iosl", 0, 1, 3]]]}, "u"]])],
                 "ports": [["s", 0, None, None], ["s", 3, None, None]]})
+    # every boundary integer as a parameter and as an attribute; enum members, bools, Consts of boundary shapes
+    bi = boundary_ints()
+    args = [["p", f"P{k}", ["int", n]] for k, n in enumerate(bi)] + [["a", f"A{k}", ["int", n]] for k, n in enumerate(bi)]
+    args += [["p", "EP", ["enum", "py", -2147483649]], ["p", "EA", ["enum", "am", -2 ** 40 + 5]], ["p", "EF", ["enum", "pyflag", 2 ** 33]],
+             ["p", "EG", ["enum", "amflag", 5]], ["a", "EQ", ["enum", "py", 2 ** 31 - 1]], ["p", "T", ["bool", True]], ["a", "Fa", ["bool", False]]]
+    for k, (v, w, sg) in enumerate([(0, 0, False), (1, 1, False), (-1, 1, True), (-2 ** 31, 32, True), (2 ** 32 - 1, 32, False),
+                                    (-1, 33, True), (2 ** 39, 40, True), (2 ** 63 + 1, 64, False), (-5, 64, True), (5, 4, False)]):
+        args += [["p", f"C{k}", ["const", v, w, sg]], ["a", f"D{k}", ["const", v, w, sg]]]
+    args += [["p", f"S{k}", ["str", t]] for k, t in enumerate(STRS)] + [["a", f"R{k}", ["str", t]] for k, t in enumerate(STRS)]
+    args += [["p", "F0", ["float", 1.5]], ["p", "F1", ["float", -2.0 ** 70]], ["p", "F2", ["float", 1e-7]], ["o", "q", ["s", 0]]]
+    out.append({"sigs": [S("q", 1)], "ios": [], "mods": [M(items=[["inst", {"type": "foo", "args": args}, "u"]])],
+                "ports": [["s", 0, None, None]]})
     # I/O buffers of the three kinds in different modules
     out.append({"sigs": [S("i", 2), S("o", 1), S("oe", 1), S("x", 4), S("y", 4)], "ios": [{"n": "pi", "w": 2}, {"n": "po", "w": 1}, {"n": "pio", "w": 4}],
                 "mods": [M(items=[["mod", 1, "m1"], ["buf", {"port": ["io", 0], "i": ["s", 0], "o": None, "oe": None}, None]]),
@@ -1335,8 +1476,37 @@ def mutate(rng, doc, ex):
                 break
     for fi, f in enumerate(ex):
         d, e = clone()
-        e[fi]["params"].append(["\\not given", "", ["int", 1]])
+        e[fi]["params"].append(["\\not given", ["int", 1]])
         out.append(("mut-instance-param", d, e))
+        for key in ("params", "attrs"):
+            for pi, (pn, x) in enumerate(f[key]):
+                if x[0] == "int":
+                    d, e = clone()
+                    n = x[1]
+                    e[fi][key][pi][1] = ["int", rng.choice([n + 1, n - 1, -n - 1, n ^ (1 << max(0, n.bit_length() - 1)), n + (1 << 32)])]
+                    out.append((f"mut-instance-{key[:-1]}-value", d, e))
+                    break
+        for mi2, m2 in enumerate(mods):
+            for ci, c in enumerate(m2["cells"]):
+                if m2["name"] == f["module"] and c["name"] == f["cell"]:
+                    for pi, (pn, fl, cst) in enumerate(c["parameters"]):
+                        if cst[0] == "bits" and cst[1]:
+                            d, e = clone()
+                            k = rng.randrange(len(cst[1]))
+                            digits = cst[1]
+                            d["modules"][mi2]["cells"][ci]["parameters"][pi][2] = \
+                                ["bits", digits[:k] + ("1" if digits[k] == "0" else "0") + digits[k + 1:]]
+                            out.append(("mut-text-param-digit", d, e))
+                            d, e = clone()
+                            d["modules"][mi2]["cells"][ci]["parameters"][pi][2] = ["bits", digits[0] + digits]
+                            if fl != "signed":
+                                d["modules"][mi2]["cells"][ci]["parameters"][pi][2] = ["bits", "1" + digits]
+                            out.append(("mut-text-param-width", d, e))
+                            if fl == "signed":
+                                d, e = clone()
+                                d["modules"][mi2]["cells"][ci]["parameters"][pi][1] = ""
+                                out.append(("mut-text-param-unsigned", d, e))
+                            break
         d, e = clone()
         e[fi]["type"] = e[fi]["type"] + "x"
         out.append(("mut-instance-type", d, e))
